@@ -1,5 +1,7 @@
 """C09+C20 / F4: a delivered block whose application fails must not stay buffered for the block store."""
-import chainlib, _common
+import os, sys
+sys.path.insert(0, os.path.dirname(os.path.dirname(os.path.abspath(__file__))))
+from native import chainlib, _common
 _common.no_checkpoints()
 import socket, time as _t
 from skepticoin.networking.local_peer import LocalPeer
